@@ -528,6 +528,33 @@ class Interp:
                 continue
         return NotImplemented
 
+    def local_callee_via(self, fn, names, depth=4):
+        """For a call to a library generic (cmp::min, Iterator::max, ...) made in instance mode: the local
+        trait-method instance (named in `names`) that the library code reaches, found in the monomorphic
+        call graph.  -> (item, instance id) or None."""
+        start = fn.get("mono") if fn else None
+        if start is None:
+            return None
+        F = self.F
+        seen = {start}
+        frontier = [start]
+        for _ in range(depth):
+            nxt = []
+            for i in frontier:
+                for j in sorted(F.inst_edges.get(i, ())):
+                    if j in seen:
+                        continue
+                    seen.add(j)
+                    inst = F.instances[j]
+                    if inst["local"] and inst["def"] in F.items and inst["kind"] == "item":
+                        it = F.items[inst["def"]]
+                        if it.name in names and it.kind != "Closure":
+                            return it, j
+                        continue
+                    nxt.append(j)
+            frontier = nxt
+        return None
+
     def dispatch_local_trait(self, trait, name, args):
         recv = strip(args[0]) if args else None
         if isinstance(recv, Adt):
